@@ -438,6 +438,72 @@ func runC09(c *Ctx) {
 			R.Notes["in_place_byte_writes_examined"] = n
 		}
 	}
+	// ---- nothing grows a byte slice that belongs to a message in place
+	{
+		R.Rules["E4.no-grow"] = "no append (builtin, binary.Append*) has a byte slice held in a message object - Header.bcdTerminalPhoneNo, JTMessage.Body, the raw-frame and platform-data fields of Message - as the operand it grows: such a slice is a window of the delivered frame, and growing it writes over the frame bytes behind it (the serial number behind the BCD phone, the checksum behind the body)"
+		owners := map[string]bool{"Header": true, "JTMessage": true, "Message": true}
+		n, nBad := 0, 0
+		for _, rel := range []string{"protocol/jt808", "service", "attachment", "terminal"} {
+			for _, fn := range c.RepoFuncs(rel) {
+				for _, b := range fn.Blocks {
+					for _, ins := range b.Instrs {
+						call, isC := ins.(*ssa.Call)
+						if !isC || len(call.Call.Args) == 0 {
+							continue
+						}
+						grow := -1
+						if bi, isB := call.Call.Value.(*ssa.Builtin); isB && bi.Name() == "append" {
+							grow = 0
+						} else if sc := call.Call.StaticCallee(); sc != nil && strings.HasPrefix(sc.Name(), "AppendUint") && sc.Pkg != nil && sc.Pkg.Pkg.Path() == "encoding/binary" {
+							grow = len(call.Call.Args) - 2
+						}
+						if grow < 0 || grow >= len(call.Call.Args) {
+							continue
+						}
+						g := call.Call.Args[grow]
+						sl, isSl := g.Type().Underlying().(*types.Slice)
+						if !isSl {
+							continue
+						}
+						if bt, isBt := sl.Elem().Underlying().(*types.Basic); !isBt || bt.Kind() != types.Uint8 {
+							continue
+						}
+						n++
+						// through re-slices of the field (x.f[:k] still shares the array; x.f[:0:0] and [:k:k] do not grow in place)
+						v := g
+						capped := false
+						for {
+							if s2, ok := v.(*ssa.Slice); ok {
+								if s2.Max != nil {
+									capped = true
+								}
+								v = s2.X
+								continue
+							}
+							break
+						}
+						owner, field, isF := fieldLoad(v)
+						if !isF || capped {
+							continue
+						}
+						if !owners[owner] && !(owner == "" && (field == "TerminalData" || field == "PlatformData")) {
+							continue
+						}
+						nBad++
+						R.Add("E4.no-grow", fmt.Sprintf("%s / %s", shortFn(fn), c.constructOf(fn, call)), c.P.RelPos(call.Pos()), report.Violated,
+							fmt.Sprintf("%s.%s is grown in place: it is a window of the frame the message was decoded from (or of a buffer handed to callbacks), so the bytes behind it in that frame are overwritten", owner, field))
+					}
+				}
+			}
+		}
+		if nBad == 0 {
+			R.Add("E4.no-grow", fmt.Sprintf("no append grows a message's byte slice in place (%d appends to byte slices examined)", n), "", report.Discharged, "")
+		}
+		R.Notes["byte_appends_examined"] = n
+		if n < 10 {
+			R.Fatal("E4.no-grow: only %d appends to byte slices found (anchor)", n)
+		}
+	}
 	R.Require("E4.alias", 4, "")
 	R.Explain = "May-alias analysis on top of the abstract interpreter's buffer identities: every message the reader role creates (fast path, buffered path, re-request frames, reassembled messages) is checked at creation: its raw bytes, body and BCD phone must not share a backing array " +
 		"(through sub-slicing, bytes.Trim, append's possible in-place growth, joins and loop generalisation) with the Read buffer or with a pending buffer that is truncated and refilled. Plus: no use of a message after it is sent to the writer; identifying header fields are stored only by the decoder. " +
